@@ -15,26 +15,95 @@ Proof.
   specialize (H a). destruct (k a) as [l2 r]; simpl in *; assumption.
 Qed.
 
-Lemma call_ext_off_log s : fst (call_ext ext_off s) = [].
-Proof. reflexivity. Qed.
+Definition quiet {A} (m : logged A) : Prop := fst m = [].
 
-Lemma prolog_log_off : forall fuel d in_ext open ds,
-  fst (prolog ext_off fuel d in_ext open ds) = [].
+Lemma decl_step_quiet rec fa in_ext open d x :
+  (forall d ie op ds, quiet (rec d ie op ds)) -> quiet (decl_step ext_off rec fa in_ext open d x).
 Proof.
-  induction fuel as [|f IH]; intros d in_ext open ds; [reflexivity|].
-  simpl. revert d. induction ds as [|x r IHr]; intros d; [reflexivity|].
-  destruct x; try (apply IHr).
-  - (* DParRef *)
-    destruct (standalone d); [apply IHr|].
-    destruct (lookup n (pents (set_has_pe d true))) as [p|]; [|apply IHr].
+  intros Hrec. unfold quiet in *. destruct x; simpl; try reflexivity.
+  - destruct (standalone d); [reflexivity|].
+    destruct (lookup n _) as [p|]; [|reflexivity].
     destruct (mem n open); [reflexivity|].
-    destruct p as [v|s].
-    + apply bind_log_nil; [apply IH|intros; apply IHr].
-    + apply bind_log_nil; [apply call_ext_off_log|].
-      intros [| |[v|v]]; try reflexivity; try apply IHr.
-      apply bind_log_nil; [apply IH|intros; apply IHr].
-  - (* DAttDef *)
-    destruct (keep d); [|apply IHr].
-    match goal with |- context [attval ?a ?b ?c ?e ?g] => destruct (attval a b c e g) end;
-      try reflexivity. apply IHr.
+    destruct p as [v|s]; [apply Hrec|reflexivity].
+  - destruct (keep d); [|reflexivity].
+    destruct (attval _ _ _ _ _); reflexivity.
+Qed.
+
+Lemma run_decls_quiet step : (forall d x, quiet (step d x)) ->
+  forall ds d, quiet (run_decls step d ds).
+Proof.
+  intros Hs. induction ds as [|x r IH]; intros d; [reflexivity|].
+  simpl. apply bind_log_nil; [apply Hs|intros; apply IH].
+Qed.
+
+Lemma prolog_quiet : forall fuel d in_ext open ds, quiet (prolog ext_off fuel d in_ext open ds).
+Proof.
+  induction fuel as [|f IH]; intros; [reflexivity|].
+  simpl. apply run_decls_quiet. intros. apply decl_step_quiet. exact IH.
+Qed.
+
+Lemma tok_step_quiet rec fa d open lvl tags t :
+  (forall op l tg v, quiet (rec op l tg v)) -> quiet (tok_step ext_off rec fa d open lvl tags t).
+Proof.
+  intros Hrec. unfold quiet in *. destruct t; simpl; try reflexivity.
+  - destruct (predefined n); [reflexivity|].
+    destruct (lookup n (gents d)) as [e|]; [|destruct (check_content d); reflexivity].
+    destruct (mem n open); [reflexivity|].
+    destruct e as [v|s|]; try reflexivity.
+    apply bind_log_nil; [apply Hrec|]. intros x. destruct (Nat.eqb _ _); reflexivity.
+  - destruct (start_tag _ _ _ _); reflexivity.
+  - destruct tags; [reflexivity|]. destruct (Nat.leb _ _); [reflexivity|].
+    destruct (N.eqb _ _); reflexivity.
+Qed.
+
+Lemma run_toks_quiet step : (forall tags t, quiet (step tags t)) ->
+  forall l tags, quiet (run_toks step tags l).
+Proof.
+  intros Hs. induction l as [|t r IH]; intros tags; [reflexivity|].
+  simpl. apply bind_log_nil; [apply Hs|]. intros x.
+  apply bind_log_nil; [apply IH|reflexivity].
+Qed.
+
+Lemma content_quiet : forall fuel d open lvl tags l, quiet (content ext_off fuel d open lvl tags l).
+Proof.
+  induction fuel as [|f IH]; intros; [reflexivity|].
+  simpl. apply run_toks_quiet. intros. apply tok_step_quiet. intros; apply IH.
+Qed.
+
+Lemma read_events_quiet fuel x : quiet (read_events ext_off fuel x).
+Proof.
+  unfold read_events. apply bind_log_nil; [apply prolog_quiet|]. intros d1.
+  apply bind_log_nil.
+  - unfold doctype_close. destruct (d_ext x); [|reflexivity].
+    destruct (d_standalone x); [reflexivity|].
+    apply bind_log_nil; [reflexivity|]. intros [| |[v|v]]; try reflexivity.
+    apply prolog_quiet.
+  - intros d2. destruct (body_shape_ok _); [|reflexivity].
+    apply bind_log_nil; [apply content_quiet|]. intros r. destruct (snd r); reflexivity.
+Qed.
+
+Lemma read_quiet fuel cfg resolve x : ges cfg = false -> io_log (read fuel cfg resolve x) = [].
+Proof.
+  intros H. unfold read, io_log. rewrite (ext_ref_off _ _ H).
+  apply bind_log_nil; [apply read_events_quiet|]. intros evs.
+  destruct (handler_run evs); reflexivity.
+Qed.
+
+Lemma read_oracle_independent fuel cfg r1 r2 x : ges cfg = false ->
+  read fuel cfg r1 x = read fuel cfg r2 x.
+Proof. intros H. unfold read. rewrite !(ext_ref_off _ _ H). reflexivity. Qed.
+
+(* the same two facts for every suds entry point *)
+Lemma entry_config_off e lib_default : ges (entry_config e lib_default) = false.
+Proof. destruct e; reflexivity. Qed.
+
+Lemma entry_quiet e fuel lib_default resolve x :
+  fst (entry_parse e fuel lib_default resolve x) = [].
+Proof. unfold entry_parse, entry_wrap; simpl. apply read_quiet, entry_config_off. Qed.
+
+Lemma entry_oracle_independent e fuel lib_default r1 r2 x :
+  entry_parse e fuel lib_default r1 x = entry_parse e fuel lib_default r2 x.
+Proof.
+  unfold entry_parse. rewrite (read_oracle_independent fuel _ r1 r2 x (entry_config_off e lib_default)).
+  reflexivity.
 Qed.
